@@ -1,0 +1,147 @@
+//go:build verif
+
+package goja
+
+// Spec functions for property descriptors (properties C04, C11): a transliteration of
+// ECMA-262 (2024) 10.1.6.3 ValidateAndApplyPropertyDescriptor and 7.2.10 SameValue.
+
+// specProp is the abstract "current property" of the specification (undefined when !present).
+type specProp struct {
+	present                                      bool
+	accessor, writable, enumerable, configurable bool
+	value                                        Value
+	getter, setter                               *Object
+}
+
+// specPropOf: the property record a *valueProperty stands for.
+func specPropOf(p *valueProperty) specProp {
+	if p == nil {
+		return specProp{}
+	}
+	return specProp{present: true, accessor: p.accessor, writable: p.writable, enumerable: p.enumerable,
+		configurable: p.configurable, value: p.value, getter: p.getterFunc, setter: p.setterFunc}
+}
+
+// specExistingOf: goja stores a plain Value for a {writable, enumerable, configurable} data
+// property and a *valueProperty for everything else; nil means "no such property".
+func specExistingOf(v Value) specProp {
+	if v == nil {
+		return specProp{}
+	}
+	if p, ok := v.(*valueProperty); ok {
+		return specPropOf(p)
+	}
+	return specProp{present: true, writable: true, enumerable: true, configurable: true, value: v}
+}
+
+// specSameValueOther: SameValue on strings, symbols and BigInts (not modelled; uninterpreted).
+func specSameValueOther(a, b Value) bool { return a.SameAs(b) }
+
+// specSameObjectOther: goja treats two wrappers of the same Go value as the same object.
+func specSameObjectOther(a, b *Object) bool { return a != nil && b != nil && a.self.equal(b.self) }
+
+// specSameValue: ECMA-262 7.2.10.
+func specSameValue(a, b Value) bool {
+	switch x := a.(type) {
+	case valueUndefined:
+		_, ok := b.(valueUndefined)
+		return ok
+	case valueNull:
+		_, ok := b.(valueNull)
+		return ok
+	case valueBool:
+		y, ok := b.(valueBool)
+		return ok && x == y
+	case *Object:
+		y, ok := b.(*Object)
+		return ok && (x == y || specSameObjectOther(x, y))
+	case valueInt, valueFloat:
+		return specIsNumber(b) && specSameFloat(specNumVal(a), specNumVal(b))
+	}
+	return specSameValueOther(a, b)
+}
+
+// specSameFunc: SameValue between a descriptor's [[Get]]/[[Set]] field (a Value: undefined or an
+// object) and the stored accessor function (nil stands for undefined).
+func specSameFunc(v Value, f *Object) bool {
+	if f == nil {
+		_, ok := v.(valueUndefined)
+		return ok
+	}
+	o, ok := v.(*Object)
+	return ok && o == f
+}
+
+// specDescWF: a descriptor is never both an accessor and a data descriptor, and its [[Get]] and
+// [[Set]] are undefined or objects (ToPropertyDescriptor, 6.2.6.5).
+func specDescWF(d PropertyDescriptor) bool {
+	if (d.Getter != nil || d.Setter != nil) && (d.Value != nil || d.Writable != FLAG_NOT_SET) {
+		return false
+	}
+	return specFuncOrUndef(d.Getter) && specFuncOrUndef(d.Setter) &&
+		(d.Writable == FLAG_NOT_SET || d.Writable == FLAG_TRUE || d.Writable == FLAG_FALSE) &&
+		(d.Enumerable == FLAG_NOT_SET || d.Enumerable == FLAG_TRUE || d.Enumerable == FLAG_FALSE) &&
+		(d.Configurable == FLAG_NOT_SET || d.Configurable == FLAG_TRUE || d.Configurable == FLAG_FALSE)
+}
+
+func specFuncOrUndef(v Value) bool {
+	if v == nil {
+		return true
+	}
+	switch o := v.(type) {
+	case valueUndefined:
+		return true
+	case *Object:
+		return o != nil
+	}
+	return false
+}
+
+// specPropWF: a data property always has a value; an accessor never has one.
+func specPropWF(c specProp) bool {
+	if !c.present {
+		return true
+	}
+	if c.accessor {
+		return c.value == nil
+	}
+	return c.value != nil
+}
+
+// specValidate: does ValidateAndApplyPropertyDescriptor accept (extensible, Desc, current)?
+func specValidate(extensible bool, d PropertyDescriptor, c specProp) bool {
+	if !c.present {
+		return extensible
+	}
+	hasGet, hasSet := d.Getter != nil, d.Setter != nil
+	hasValue, hasWritable := d.Value != nil, d.Writable != FLAG_NOT_SET
+	isAccessorDesc := hasGet || hasSet
+	isDataDesc := hasValue || hasWritable
+	if !c.configurable {
+		if d.Configurable == FLAG_TRUE {
+			return false
+		}
+		if d.Enumerable != FLAG_NOT_SET && (d.Enumerable == FLAG_TRUE) != c.enumerable {
+			return false
+		}
+		if (isAccessorDesc || isDataDesc) && isAccessorDesc != c.accessor {
+			return false
+		}
+		if c.accessor {
+			if hasGet && !specSameFunc(d.Getter, c.getter) {
+				return false
+			}
+			if hasSet && !specSameFunc(d.Setter, c.setter) {
+				return false
+			}
+		} else if !c.writable {
+			if d.Writable == FLAG_TRUE {
+				return false
+			}
+			if hasValue && !specSameValue(d.Value, c.value) {
+				return false
+			}
+		}
+	}
+	return true
+}
